@@ -19,6 +19,8 @@ BOUNDS = {
              "category alone vs default value+unit; eval(repr) with the value printed as a bound identifier",
     "thorough": "same (finite quantifier already exhausted) plus every (unit, category sharing the quantity type) pair for all four classes",
 }
+BOUNDS_ALSO = "; also: objects built from the category alone after the category was redefined (every category); a category with a symbolic default value; quantity-first forms with captioned quantities; histories in which the unit's default category is registered later than the unit or changes through Clear()+reconfigure (3 first uses each); auxiliary: amounts that are not floats"
+BOUNDS = {k_: v_ + BOUNDS_ALSO for k_, v_ in BOUNDS.items()}
 ASSUMPTIONS = ["A-FP", "A-REPR: repr(float) round-trips; the symbolic value prints as an identifier bound to itself in the eval namespace, so the repr TEMPLATE "
                "(argument order, quoting) is what is decided for all values; a fixed list of hard floats (0.1+0.2, 1/3, 5e-324, 1.7976931348623157e308, -0.0) is "
                "additionally evaluated concretely as an auxiliary sub-check"]
